@@ -33,6 +33,10 @@
 
 JANET_THREAD_LOCAL JanetVM janet_vm;
 
+#ifdef JANET_VERIF_SIM
+JanetVerifHooks janet_verif_hooks;
+#endif
+
 JanetVM *janet_local_vm(void) {
     return &janet_vm;
 }
